@@ -990,12 +990,24 @@ def sigfn(results_by_id):
     return sig
 
 
+# wall-clock budget after which no further chunk of pair cases is started (thorough tier); the run then reports the
+# completed bound (max_blocks=1) and exhaustive=False instead of overrunning on a loaded machine
+CAP_S = float(os.environ.get('VERIF_CAP_S', 780))
+
+
 def run(ctx):
     d = 1 if ctx.quick else 2
-    cases = make_cases(d)
+    allcases = make_cases(d)
     worker.base = str(ctx.scratch)
     ctx.reset_pool()
-    results = xform.judge_cases(ctx, cases, worker)
+    # phase 1: base call tree and single blocks (always complete); phase 2: pairs, in seeded order, under a wall-clock cap
+    first = [c for c in allcases if len(c['switches']) <= 1]
+    res1 = xform.judge_cases(ctx, first, worker)
+    pairs = xfast.interleave([c for c in allcases if len(c['switches']) > 1], lambda c: (c['family'], c['id'].split('|', 1)[1]))
+    second, res2, complete = xfast.judge_until(ctx, pairs, worker, CAP_S) if pairs else ([], [], True)
+    cases, results = first + second, res1 + res2
+    if not complete:
+        ctx.note(f'time cap {CAP_S}s hit: {len(second)} of {len(pairs)} pair cases judged; bound completed: max_blocks=1')
     by_id = {r['id']: r for r in results}
     xform.summarise(ctx, cases, results, sigfn(by_id))
     per_family = {}
@@ -1006,8 +1018,8 @@ def run(ctx):
     for fam, pf in per_family.items():
         ctx.require(pf['changed_ok'] >= 2, f'vacuous: family {fam} has only {pf["changed_ok"]} changed-and-equal programs')
     ctx.cov.update(
-        exhaustive=True, per_family=per_family,
-        bound=dict(max_blocks=d, blocks={f: len(s['blocks']) for f, s in FAMILIES.items()},
+        exhaustive=complete, per_family=per_family, pairs_judged=len(second), pairs_total=len(pairs),
+        bound=dict(max_blocks=d if complete else 1, blocks={f: len(s['blocks']) for f, s in FAMILIES.items()},
                    variants={f: len(s['variants']) for f, s in FAMILIES.items()}),
         rule=f'per family, all combinations of <= {d} feature blocks added to the base call tree x every transformation '
              'variant (2- and 3-level trees for the scheduler-driven ones); 3 inputs per run; non-trivial = the '
